@@ -88,7 +88,13 @@ Proof.
   destruct (4294967295 <? a) eqn:Ebig; cbn [truthy bindS bind call].
   - eexists. reflexivity.
   - unfold AS_NUM_BOUNDARIES.
-    Ltac as_step := cbn [as_loop py_iter bind bindS py_for py_lt truthy py_sub py_mod py_add py_str intop call].
+    (* closed library calls (slices / zips of the literal boundary list) are evaluated by the kernel, so the script does not depend on how the
+       source walks the table (a running block_begin, zip(boundaries, boundaries[1:]), ...) *)
+    Ltac as_eval := repeat match goal with
+      | |- context [py_slice ?a ?b ?c] => let v := eval vm_compute in (py_slice a b c) in change (py_slice a b c) with v
+      | |- context [py_zip ?a ?b] => let v := eval vm_compute in (py_zip a b) in change (py_zip a b) with v
+      end.
+    Ltac as_step := as_eval; cbn [as_loop py_iter bind bindS py_for py_lt truthy py_sub py_mod py_add py_str intop call unpack2]; as_eval.
     as_step. replace (a <? 0) with false by (symmetry; apply Z.ltb_ge; lia). as_step.
     destruct (a <? 64512) eqn:E1; as_step.
     { replace (64512 - 0 =? 0) with false by reflexivity. as_step.
